@@ -1,16 +1,23 @@
 """C05 — shipped rewrite rules preserve semantics wherever they fire."""
-MODULES = ["contracts.c05_rules", "contracts.c05_batchnorm", "contracts.c05_basic", "contracts.c05_casts", "contracts.c09_reshape", "contracts.c06_matcher:match_constant", "contracts.c05_conv", "contracts.c05_gemm", "contracts.c05_matmul_reshape"]
+MODULES = ["contracts.c05_rules", "contracts.c05_batchnorm", "contracts.c05_basic", "contracts.c05_casts", "contracts.c09_reshape", "contracts.c06_matcher:match_constant", "contracts.c05_conv", "contracts.c05_gemm", "contracts.c05_matmul_reshape",
+           # helpers the rule conditions rest on (anchors: _ir_utils.same_shape / same_dim; _pattern_ir Constant incl. its commuted clones)
+           "contracts.c09_expand:C09.ir_utils", "contracts.c06_matcher:pattern_ir.clone"]
 HEAD = "import sys\nsys.path.insert(0, '/verif')\nfrom replay_lib.opt_native import main\n"
 EVIDENCE_EXTRA = {"rules_not_under_contract": "all rules except _fuse_relus_clips (4), _min_max_to_clip (4), _no_op (pattern constants), _remove_expand_before_binary_op, _basic_rules.TransposeTranspose, _fuse_batchnorm (Conv, Gemm); rules.fusion and _fuse_hardswish replace subgraphs by compound operators whose only definition is a function body or an ORT kernel"}
 
 
 def INCLUDE(name):
     # the literal-matching contract of the matcher decides C05's 'value only approximately equal / broadcast shapes' clause too
-    return name.startswith("C05.") or name.startswith("C06.matcher.match_constant")
+    return (name.startswith("C05.") or name.startswith("C06.matcher.match_constant") or name.startswith("C09.ir_utils.")
+            or name.startswith("C06.pattern_ir.clone.constant"))
 
 
 def replay(ob):
     n = ob["name"]
+    if n.startswith("C09.ir_utils."):
+        return HEAD + "main(['slice_unknown_dims', 'expand_unknown_dims'])\n"
+    if n.startswith("C06.pattern_ir.clone"):
+        return HEAD + "main(['commuted_literal_tolerance'])\n"
     if "ScatterAllDynamic" in n:
         return HEAD + "main(['scatter_dynamic_shape_attrs'])\n"
     if "C06.matcher.match_constant" in n:
